@@ -583,7 +583,9 @@ def ties_present(tabs):
     """an exact tie between two complete features on a ranking key, or an association exactly at
     thresh_corr: the implementation may legitimately order / decide either way"""
     for t in tabs.values():
-        for j, _ in enumerate(t["ms"]):
+        for j, k in enumerate(t["ms"]):
+            if not RANKING[k]:
+                continue  # chi2_statistic / pct_iqr columns are never sorted on
             ks = [r["raw"][j]["key"] for r in t["rows"] if r["raw"][j]["key"] not in (None, "err")]
             if len(set(ks)) != len(ks):
                 return True
@@ -1086,10 +1088,7 @@ def gen_iqr_case(rng):
         if len(set(y)) < 2:
             continue
         thr = rng.choice([1 / 32, 1 / 16, 1 / 8, 1 / 4])
-        dec = set()
-        for xs in (f, [-v for v in f]):
-            for meth in ("linear", "lower", "higher"):
-                dec.add((xs is f, iqr_exact(xs, meth) < Fr(thr)))
+        dec = {meth: iqr_exact(f, meth) < Fr(thr) for meth in ("linear", "lower", "higher")}
         g = [v + rng.randint(0, 3) for v in y]
         h = [rng.randint(0, 6) for _ in y]
         second = rng.choice(["kruskal", "kruskal", "R"])
@@ -1097,8 +1096,7 @@ def gen_iqr_case(rng):
             f = [float(v) for v in f]
         case = mk_case("classification", y, [f, g, h], [], rng.choice([1, 2, 3]), ["iqr", second], None,
                        rng.choice([None, []]), None, {"thresh_iqr": thr})
-        sens = {d for d in dec if d[0]}, {d for d in dec if not d[0]}
-        if len(sens[0]) > 1 or len(sens[1]) > 1:
+        if dec["lower"] != dec["higher"]:  # the rule matters (and lower(-x) mirrors higher(x))
             return case
     return case
 
